@@ -202,14 +202,23 @@ func (tr *Trans) staticCall(fn *ssa.Function, binds []Val, args []Val, in ssa.In
 			Pos: tr.posOf(in), Fn: tr.label, Props: tr.safetyProps()})
 	}
 	isClosure := fn.Parent() != nil
+	inlineWithAsserts := func() Val {
+		short := strings.ReplaceAll(key, "github.com/bbockelm/cedar/", "")
+		ord := tr.calleeOrdinal(short, in)
+		pre := tr.st
+		tr.callerAsserts("before", short, ord, args, Val{}, pre, pre)
+		r := tr.inline(fn, binds, args, resT)
+		tr.callerAsserts("after", short, ord, args, r, pre, tr.st)
+		return r
+	}
 	if (isClosure && ct == nil || ct != nil && ct.Inline) && fn.Blocks != nil && tr.g.depth < 8 {
 		tr.g.calleesUsed[key] = "inlined"
-		return tr.inline(fn, binds, args, resT)
+		return inlineWithAsserts()
 	}
 	if ct == nil && fn.Blocks != nil && tr.g.depth < 4 && fn != tr.fn && inRepo(fn) && smallBody(fn, 80) {
 		// small helper of the repository without a contract: transparent (keeps proofs stable under helper extraction)
 		tr.g.calleesUsed[key] = "inlined"
-		return tr.inline(fn, binds, args, resT)
+		return inlineWithAsserts()
 	}
 	if ct != nil {
 		if ct.Trusted || ct.External {
@@ -390,8 +399,15 @@ func (tr *Trans) havocCall(key string, args []Val, resT types.Type, in ssa.Instr
 			}
 		}
 	}
+	short := strings.ReplaceAll(key, "github.com/bbockelm/cedar/", "")
+	ord := tr.calleeOrdinal(short, in)
+	tr.callerAsserts("before", short, ord, args, Val{}, tr.st, tr.st)
 	prev := tr.st
 	tr.st = tr.g.havocAll(tr.st, esc)
+	defer func() {
+		// in-body asserts placed after a contract-less call see the havocked state
+		tr.callerAsserts("after", short, ord, args, Val{}, prev, tr.st)
+	}()
 	if !strings.Contains(key, repoModule) {
 		// code outside the repository cannot reach cedar's unexported mutexes: ghost lock state survives (assumption, listed)
 		for _, lk := range []string{"lock$sync.Mutex", "lock$sync.RWMutex.w", "lock$sync.RWMutex.r"} {
